@@ -76,6 +76,16 @@ def lastIsName (b : Bytes) : Bool :=
   | some c => c != [46] && c != dotdot
   | none => false
 
+/-- the model keeps the working directory and its ancestors (assumption): such arguments are rejected -/
+def hitsCwd (fs : Fs) (b : Bytes) : Bool :=
+  match resolve fs b true with
+  | .found q _ => q.isPrefixOf cwd
+  | _ => false
+
+/-- Directory::purge climbs through getDirectoryName: only relative paths of plain names are run -/
+def purgeOk (b : Bytes) : Bool :=
+  !startsWith47 b && (chunks b).all (fun c => c != [46] && c != dotdot) && !(chunks b).isEmpty
+
 def parseBool (s : String) : Option Bool :=
   if s == "0" then some false else if s == "1" then some true else none
 
@@ -124,9 +134,8 @@ def fsOp (fs : Fs) (ws : List String) : Option (Fs × String) :=
       pure (fs', b01 (isOk r))
   | ["fsmkfile", p, d] => do
       let p ← fromHex p; let d ← fromHex d; if !okFsPath p then none
-      match sysOpen fs p { acc := .wronly, creat := true, trunc := true } with
-      | (fs', .error _) => pure (fs', "0")
-      | (fs', .ok fd) => let (fs'', _, _) := sysWrite fs' fd d; pure (fs'', "1")
+      let (fs', ok) := mkfile fs p d
+      pure (fs', b01 ok)
   | ["fssymlink", t, p] => do
       let t ← fromHex t; let p ← fromHex p; if !(okFsPath p && okFsPath t) then none
       let (fs', r) := sysSymlink fs t p
@@ -143,8 +152,15 @@ def fsOp (fs : Fs) (ws : List String) : Option (Fs × String) :=
       let p ← fromHex p; let k ← k.toNat?; if !okFsPath p then none
       let (fs', r, fired) := dirCreateTop fs p (some k)
       pure (fs', s!"{b01 r} fired={fired}")
+  | ["fspurge", p, r] => do
+      let p ← fromHex p; let r ← parseBool r; if !(okFsPath p && purgeOk p) || hitsCwd fs p then none
+      let (fs', ok) := dirPurge fs p r
+      pure (fs', b01 ok)
+  | ["fsabspath", p] => do
+      let p ← fromHex p; if !okStr p then none
+      pure (fs, toHex (getAbsolutePath p))
   | ["fsrmdir", p, r] => do
-      let p ← fromHex p; let r ← parseBool r; if !(okFsPath p && lastIsName p) then none
+      let p ← fromHex p; let r ← parseBool r; if !(okFsPath p && lastIsName p) || hitsCwd fs p then none
       let (fs', ok) := dirUnlinkTop fs p r
       pure (fs', b01 ok)
   | ["fsunlink", p] => do
@@ -153,7 +169,7 @@ def fsOp (fs : Fs) (ws : List String) : Option (Fs × String) :=
       pure (fs', b01 ok)
   | ["fsrename", a, b, f] => do
       let a ← fromHex a; let b ← fromHex b; let f ← parseBool f
-      if !(okFsPath a && okFsPath b && lastIsName a && lastIsName b) then none
+      if !(okFsPath a && okFsPath b && lastIsName a && lastIsName b) || hitsCwd fs a then none
       let (fs', ok) := fileRename fs a b f
       pure (fs', b01 ok)
   | ["fscopy", a, b, f] => do
